@@ -262,6 +262,9 @@ def _compute_interpolation_weights(inputs, keypoints, lengths):
   """
   # weights always matches the shape of inputs.
   weights = (inputs - keypoints) / lengths
+  # A zero-length piece (keypoints collapsed by softmax underflow, or
+  # keypoint_input_min == keypoint_input_max) is a step: 0/0 must not be NaN.
+  weights = tf.where(tf.math.is_nan(weights), tf.ones_like(weights), weights)
   weights = tf.clip_by_value(weights, 0.0, 1.0)
   return _front_pad(weights, 1.0)
 
